@@ -240,6 +240,17 @@ def check(prop, tier, seed):
     if relevant_fails:
         A["ok"] = False
         A["problems"] += relevant_fails
+    if P.get("field_orders") and eok:
+        # E3 (C03): the `impl_consensus_encoding!` field orders and declared field types of the current source must be the reviewed ones
+        cur = json.load(open(os.path.join(WORK, "gen", "field_orders.json")))
+        rev = json.load(open(os.path.join(ROOT, "field_orders.json")))
+        ck = lambda l: {x["type"]: (x["wire_order"], x["declared_fields"]) for x in l}
+        diff = sorted(t for t in set(ck(cur)) | set(ck(rev)) if ck(cur).get(t) != ck(rev).get(t))
+        A["field_orders"] = dict(types=len(cur), changed=diff)
+        if diff:
+            A["ok"] = False
+            A["problems"].append("consensus field order / field types changed for: %s (current %s)" % (", ".join(diff), "; ".join("%s=%s" % (t, ck(cur).get(t, ("<removed>",))[0]) for t in diff)))
+            A.setdefault("failing", []).append("C03 field-order table (E3)")
     if P.get("panic_inventory") and eok:
         # E6 (C04): every potential panic site of the current source must be in the reviewed inventory
         import collections
@@ -322,7 +333,7 @@ def check(prop, tier, seed):
                             model_mismatches=len(b_mis), direct_oracle_checks=meta.get("direct_checks", 0),
                             oracle_failures=len(c_fail), known_findings_reproduced=sorted(known_hit)),
         input_distribution=meta.get("stats", {}),
-        extractor=dict(ok=eok, failures=efails), panic_sites=A.get("panic_sites"),
+        extractor=dict(ok=eok, failures=efails), panic_sites=A.get("panic_sites"), field_orders=A.get("field_orders"),
         exhaustive=bool(meta.get("exhaustive", False)),
         explanation=P["level_text"],
     )
